@@ -159,7 +159,7 @@ def pair_part(ck):
                 g = []
                 for v in variants:
                     g.append(len(jobs))
-                    jobs.append(dict(conf=dict(base, **v), seed=1000 + sd, n_total=32))
+                    jobs.append(dict(conf=dict(base, **v), seed=1000 + sd, n_total=32, **({"timeout": 240.0} if isinstance(v.get("pool"), int) and v["pool"] > 1 else {})))
                 groups.append(g)
     R = pairs.run_many(jobs)
     P = []
